@@ -8,6 +8,9 @@ Local Arguments Z.sub : simpl never.
 Local Arguments Z.leb : simpl never.
 Local Arguments Z.ltb : simpl never.
 Local Arguments Z.eqb : simpl never.
+Local Arguments Z.mul : simpl never.
+Local Arguments Z.of_nat : simpl never.
+Local Arguments Z.opp : simpl never.
 
 Definition tid := nat.
 Inductive want := Up | Down.
@@ -134,4 +137,114 @@ Proof.
   intros s Hc Hp. destruct (inv_reach labels) as [_ Hw]. destruct (Hw t w Hp) as [Hcomp _].
   fold s in Hcomp. rewrite Hc in Hcomp. destruct w; cbn in Hcomp; discriminate.
 Qed.
-Print Assumptions free_lock_no_sleeper.
+
+(* ---------------------------------------------------------------------------------------------
+   Exclusion, with a ghost list of hold tokens: a token (t, w) is added by every successful acquire
+   and one is removed by every successful release. *)
+Definition token := (tid * want)%type.
+Definition want_eqb (a b : want) : bool := match a, b with Up, Up | Down, Down => true | _, _ => false end.
+Fixpoint remove_one (t : tid) (l : list token) : list token :=
+  match l with
+  | [] => []
+  | (u, w) :: l' => if Nat.eqb u t then l' else (u, w) :: remove_one t l'
+  end.
+Definition holds_of (t : tid) (l : list token) : Z := Z.of_nat (length (filter (fun x => Nat.eqb (fst x) t) l)).
+
+Definition gstep (sg : st * list token) (l : label) : st * list token :=
+  let '(s, g) := sg in
+  match l with
+  | LAcq b w t =>
+      match pcs s t with
+      | Idle => let '(s', o) := try_acquire b w t s in (s', match o with Got => (t, w) :: g | _ => g end)
+      | _ => (s, g) end
+  | LRetry t =>
+      match pcs s t with
+      | Woken w => let '(s', o) := try_acquire true w t s in (s', match o with Got => (t, w) :: g | _ => g end)
+      | _ => (s, g) end
+  | LRel w t =>
+      match pcs s t with
+      | Idle => let '(s', o) := release w t s in (s', match o with ReleasedOk => remove_one t g | _ => g end)
+      | _ => (s, g) end
+  end.
+
+(* ghost invariant: all tokens share one want, the signed count is their number, owners count tokens per thread *)
+Definition GInv (sg : st * list token) : Prop :=
+  let '(s, g) := sg in
+  (exists w0, Forall (fun x => snd x = w0) g /\ count s = sgn w0 * Z.of_nat (length g)) /\
+  (forall t, owners s t = holds_of t g).
+
+Lemma holds_cons t u w g : holds_of t ((u, w) :: g) = (if Nat.eqb u t then 1 else 0) + holds_of t g.
+Proof. unfold holds_of. cbn [filter fst]. destruct (Nat.eqb u t); cbn [length]; lia. Qed.
+
+Lemma remove_one_spec t g :
+  0 < holds_of t g ->
+  length (remove_one t g) = pred (length g) /\ (0 < length g)%nat /\
+  (forall u, holds_of u (remove_one t g) = holds_of u g - (if Nat.eqb t u then 1 else 0)) /\
+  (forall w0, Forall (fun x => snd x = w0) g -> Forall (fun x => snd x = w0) (remove_one t g)).
+Proof.
+  induction g as [|[u w] g IH]; intros H; [unfold holds_of in H; cbn in H; lia|].
+  cbn [remove_one]. destruct (Nat.eqb_spec u t) as [->|Hne].
+  - repeat split; cbn [length]; try lia.
+    + intros v. rewrite holds_cons. rewrite (Nat.eqb_sym t v). destruct (Nat.eqb v t); lia.
+    + intros w0 F. inversion F; assumption.
+  - rewrite holds_cons in H. destruct (Nat.eqb_spec u t); [congruence|].
+    destruct (IH ltac:(lia)) as (L & P & Hh & F).
+    repeat split; cbn [length]; try lia.
+    + intros v. rewrite !holds_cons, Hh. lia.
+    + intros w0 Fw. inversion Fw as [|? ? Hhd Htl]. constructor; [exact Hhd | apply F; exact Htl].
+Qed.
+
+Lemma ginv_init : GInv (init, []).
+Proof. split; [exists Up; split; [constructor | reflexivity] | intros t; reflexivity]. Qed.
+
+Lemma acquire_ginv b w t s g :
+  GInv (s, g) ->
+  GInv (let '(s', o) := try_acquire b w t s in (s', match o with Got => (t, w) :: g | _ => g end)).
+Proof.
+  intros [(w0 & F & C) O]. unfold try_acquire.
+  destruct (compatible w (count s)) eqn:Hc.
+  - split.
+    + cbn [count]. destruct g as [|x g].
+      * exists w. split; [constructor; [reflexivity|constructor]|]. cbn [length] in *. lia.
+      * assert (w0 = w).
+        { cbn [length] in C. destruct w0, w; try reflexivity; cbn in *; lia. }
+        subst w0. exists w. split; [constructor; [reflexivity|exact F]|]. cbn [length] in *. lia.
+    + intros u. cbn [owners]. unfold upd. rewrite holds_cons, (Nat.eqb_sym t u).
+      destruct (Nat.eqb_spec u t) as [->|]; rewrite ?O; lia.
+  - destruct (0 <? owners s t); [|destruct (negb b)]; (split; [exists w0; split; assumption | exact O]).
+Qed.
+
+Lemma release_ginv w t s g :
+  GInv (s, g) ->
+  GInv (let '(s', o) := release w t s in (s', match o with ReleasedOk => remove_one t g | _ => g end)).
+Proof.
+  intros [(w0 & F & C) O]. unfold release.
+  destruct ((match w with Up => 0 <? count s | Down => count s <? 0 end) && (0 <? owners s t)) eqn:Hh;
+    [|split; [exists w0; split; assumption | exact O]].
+  apply andb_prop in Hh as [Hheld Ho].
+  assert (Hpos : 0 < holds_of t g) by (rewrite <- O; lia).
+  destruct (remove_one_spec t g Hpos) as (L & P & Hh & FF).
+  assert (w0 = w) by (destruct w0, w; try reflexivity; cbn in *; lia). subst w0.
+  split.
+  - exists w. split; [apply FF, F|]. cbn [count]. rewrite L. destruct w; cbn in *; lia.
+  - intros u. cbn [owners]. unfold upd. rewrite Hh, (Nat.eqb_sym t u).
+    destruct (Nat.eqb_spec u t) as [->|]; rewrite ?O; lia.
+Qed.
+
+Lemma ginv_step sg l : GInv sg -> GInv (gstep sg l).
+Proof.
+  destruct sg as [s g]. intros H. destruct l as [b w t | t | w t]; cbn [gstep];
+    destruct (pcs s t); try exact H; try (apply acquire_ginv; exact H); apply release_ginv; exact H.
+Qed.
+
+(* C13_exclusion: in every reachable state no thread holds the lock up while another (or the same) holds it down *)
+Theorem exclusion labels t1 t2 :
+  let '(s, g) := fold_left gstep labels (init, []) in ~ (In (t1, Up) g /\ In (t2, Down) g).
+Proof.
+  assert (H : forall sg, GInv sg -> GInv (fold_left gstep labels sg)).
+  { induction labels as [|l ls IH]; cbn; intros sg Hs; [exact Hs|]. apply IH, ginv_step, Hs. }
+  specialize (H _ ginv_init). destruct (fold_left gstep labels (init, [])) as [s g].
+  destruct H as [(w0 & F & _) _]. rewrite Forall_forall in F. intros [H1 H2].
+  pose proof (F _ H1) as E1. pose proof (F _ H2) as E2. cbn in E1, E2. congruence.
+Qed.
+Print Assumptions exclusion.
